@@ -128,6 +128,7 @@ type Contract struct {
 	Safety       string   // "on" / "off" / ""
 	Pure         bool     // declared to have no heap effect at all (stronger than modifies nothing: also for loops' havoc)
 	Assumed      bool     // contract of a repository function that is used by callers but not (yet) verified
+	AssumedFrame bool     // only the modifies clause is assumed; every other clause is verified
 	Bounded      []string // bounded stand-in drivers: "<driver> <stated bound ...>"
 	Fresh        []string // results that are freshly allocated objects when non-nil
 	WrapOK       bool     // integer arithmetic in this function wraps by design (hash-like code): no overflow obligations
@@ -155,7 +156,7 @@ type File struct {
 
 // ---------- line level parser
 
-var clauseKW = map[string]bool{"bounded": true, "assumed": true, "fresh": true, "exit": true, "props": true, "mode": true, "bytes": true, "requires": true, "ensures": true, "modifies": true,
+var clauseKW = map[string]bool{"bounded": true, "assumed": true, "assumed-frame": true, "fresh": true, "exit": true, "props": true, "mode": true, "bytes": true, "requires": true, "ensures": true, "modifies": true,
 	"panics": true, "loop": true, "invariant": true, "decreases": true, "trusted": true, "wrap-ok": true,
 	"call": true, "aftercall": true, "implements": true, "replay": true, "safety": true, "pure": true, "conformance": true,
 	"assume": true, "show": true, "vars": true, "mustfail": true}
@@ -307,6 +308,8 @@ func ParseComments(pkg, file string, lines []string, lineNos []int) *File {
 				cur.Bytes = rest
 			case "trusted":
 				cur.Trusted = true
+			case "assumed-frame":
+				cur.AssumedFrame = true
 			case "assumed":
 				cur.Trusted = true
 				cur.Assumed = true
